@@ -111,6 +111,8 @@ fn event_targets_field(event: &serde_json::Value) -> Option<Vec<String>> {
 }
 
 pub fn append_event(home: &AgentpackHome, recorded: &RecordedEvent) -> anyhow::Result<PathBuf> {
+    #[cfg(agentpack_verif)]
+    crate::verif_hooks::point("mkdir", &home.logs_dir).context("create logs dir")?;
     std::fs::create_dir_all(&home.logs_dir).context("create logs dir")?;
     let path = home.logs_dir.join(EVENTS_LOG_FILENAME);
 
@@ -123,6 +125,8 @@ pub fn append_event(home: &AgentpackHome, recorded: &RecordedEvent) -> anyhow::R
         .append(true)
         .open(&path)
         .with_context(|| format!("open {}", path.display()))?;
+    #[cfg(agentpack_verif)]
+    crate::verif_hooks::point("append", &path).context("append event")?;
     f.write_all(line.as_bytes()).context("append event")?;
 
     Ok(path)
